@@ -13,9 +13,9 @@ THEOREMS = ["Nun.C04_replicas_agree_on_writes", "Nun.setValue_agree", "Nun.C04_f
 OPS = ["set a {v}", "set b {v}", "set a two words {v}", "remove a", "remove b", "increment n", "increment n 5", "increment n 0", "increment m{v} 0", "increment n -3", "remove n", "set-safe a {ver} s{v}", "create-user u{v} pw", "set-permissions u1 rw a*",
        "snapshot false", "create-db d{v} tk", "set n 7", "resolve {v} t r 1 res{v}", "SNAP", "SNAP"]
 
-def setup(net, k, rng):
+def setup(net, k, rng, strategy=None):
     if not cluster.form_cluster(net, k, rng): return False
-    net.op(1, "SESS 1"); net.cmd(1, 1, "auth adm pw"); net.cmd(1, 1, "create-db t tok")
+    net.op(1, "SESS 1"); net.cmd(1, 1, "auth adm pw"); net.cmd(1, 1, "create-db t tok" + (f" {strategy}" if strategy else ""))
     if net.quiesce(rng, 200) is None: return False
     for i in range(1, k + 1):
         if i > 1: net.op(i, "SESS 1"); net.cmd(i, 1, "auth adm pw")
@@ -64,9 +64,9 @@ def diverged(net, k, hist, label, tainted=None):
         if f.cls not in seen: seen.add(f.cls); out.append(f)
     return out
 
-def scenario(k, n_ops, concurrent, single_node=None):
+def scenario(k, n_ops, concurrent, single_node=None, strategy=None):
     def fn(net, rng):
-        if not setup(net, k, rng): return [Failure("cluster-does-not-form", f"{k} nodes: messages still in flight after the budget")]
+        if not setup(net, k, rng, strategy): return [Failure("cluster-does-not-form", f"{k} nodes: messages still in flight after the budget")]
         hist = []     # (node, command)
         ctr = 0; tainted = set(); found = []
         safe_node = 1 + rng.below(k)          # versioned writes from one node only (races between nodes are the stated exception)
@@ -132,10 +132,10 @@ def scenario_concurrent_clients(k, cmd_a, cmd_b, sched):
     fn.impl_only = True
     return fn
 
-def scenario_versions(k, script, label="version-marker"):
+def scenario_versions(k, script, label="version-marker", strategy=None):
     """fixed sequences around the version markers a client may write: -2 ('in conflict'), -1 (unversioned), exact and stale versions"""
     def fn(net, rng):
-        if not setup(net, k, rng): return [Failure("cluster-does-not-form", f"{k} nodes")]
+        if not setup(net, k, rng, strategy): return [Failure("cluster-does-not-form", f"{k} nodes")]
         hist = []; found = []; tainted = set()
         for node, cmd in script:
             hist.append((node, cmd)); net.cmd(node, 1, cmd)
@@ -164,6 +164,12 @@ WIRE_SCRIPTS = [
     [(1, "set-safe q; 0 x;"), (1, "set-safe q; 1 7 y"), (1, "remove q;")],
 ]
 
+NEWER_SCRIPTS = [
+    [(1, "set color red"), (1, "set color green"), (1, "set color blue"), (1, "set-safe color 0 yellow"), (1, "get-safe color")],
+    [(1, "set-safe a 5 five"), (1, "set-safe a 1 one"), (1, "set-safe a 6 six"), (1, "set-safe a 0 zero"), (1, "increment a")],
+    [(1, "set a 1"), (1, "remove a"), (1, "set-safe a 0 back"), (1, "set-safe a 0 again")],
+]
+
 def key_of(cmd):
     p = cmd.split(" ")
     if p[0] in ("set", "remove", "increment", "set-safe"): return p[1]
@@ -183,6 +189,10 @@ def scenarios(tier):
         S.append((f"k{k}-secondary-only", scenario(k, 6, False, single_node=2)))
         S.append((f"k{k}-snapshot-timing", scenario_snapshot_timing(k)))
         for vi, sc in enumerate(VERSION_SCRIPTS): S.append((f"k{k}-version-markers-{vi}", scenario_versions(k, sc)))
+        # a database with the `newer` strategy: the primary RESOLVES a stale versioned write instead of refusing it; every receiver must
+        # reach the same outcome from the line it is sent (primary-only writers: the recorded echo findings need a writing secondary)
+        for vi, sc in enumerate(VERSION_SCRIPTS + NEWER_SCRIPTS): S.append((f"k{k}-newer-version-markers-{vi}", scenario_versions(k, sc, "newer-strategy", "newer")))
+        for r in range(3 if tier == "quick" else 20): S.append((f"k{k}-newer-primary-only-{r}", scenario(k, 4 + r % 5, False, single_node=1, strategy="newer")))
         for vi, sc in enumerate(WIRE_SCRIPTS): S.append((f"k{k}-wire-format-{vi}", scenario_versions(k, sc, "wire-format")))
     # two concurrent clients on the primary (the quantifier's second case), lock-level schedules
     import random
@@ -195,7 +205,7 @@ def scenarios(tier):
 RULE = ("clusters of 2 and 3 real nodes formed through the real join path (join -> supervisor -> connections -> set-primary / set-secoundary / replicate-since handshakes), then sequences of 1-8 client operations "
         "(set incl. multi-word values, remove, increment, set-safe from one node with versions -2 (the in-conflict marker), -1 and 0-3, create-user, set-permissions, snapshot, create-db) issued at seeded-random nodes, (a) sequentially with a seeded-random FIFO-respecting delivery order to quiescence "
         "after each operation and (b) with operations overlapping in flight (0-3 seeded-random deliveries between operations); at quiescence every node's full dataset (databases, strategy, per key value / removed status / version) is compared with the primary's. "
-        "(c) two clients on the primary whose commands overlap at LOCK level (increment / set / set-safe / remove pairs under 20 (thorough 128) schedules of the two threads' lock acquisitions; implementation only, judged by the convergence oracle); plus fixed sequences around the version markers (-2, -1, exact, stale, jump) on the primary. Every primitive operation is also executed by the Lean model in lockstep and every output line compared. distinct by trace hash")
+        "(c) two clients on the primary whose commands overlap at LOCK level (increment / set / set-safe / remove pairs under 20 (thorough 128) schedules of the two threads' lock acquisitions; implementation only, judged by the convergence oracle); plus fixed sequences around the version markers (-2, -1, exact, stale, jump) on the primary, on a strategy-none and on a `newer` database (where the primary resolves a stale write instead of refusing it), and seeded primary-only sequences on a `newer` database. Every primitive operation is also executed by the Lean model in lockstep and every output line compared. distinct by trace hash")
 
 def main(tier, seed):
     return netrunner.run(PID, LEAN_MODULE, THEOREMS, scenarios(tier), RULE, tier, seed,
